@@ -415,19 +415,43 @@ func c12r5(w *World, rr *RuleRun) {
 		}
 		return false, fmt.Sprintf("keyMatch=%v verify=%v", keyOK, verOK)
 	}
+	// hand-off sites: select-sends in the traversal set-up and its closures; a select-send inside a
+	// module helper they call counts at each of those calls (the helper hands over what it is given)
+	own := map[*ssa.Function]bool{}
 	for _, f := range append([]*ssa.Function{sgt}, allAnon(sgt)...) {
+		own[f] = true
+	}
+	hasSelectSend := func(f *ssa.Function) bool {
+		found := false
+		eachInstr([]*ssa.Function{f}, func(_ *ssa.Function, ins ssa.Instruction) {
+			if sel, ok := ins.(*ssa.Select); ok {
+				for _, st := range sel.States {
+					if st.Dir == types.SendOnly {
+						found = true
+					}
+				}
+			}
+		})
+		return found
+	}
+	for f := range own {
 		for _, b := range f.Blocks {
 			for _, ins := range b.Instrs {
-				sel, ok := ins.(*ssa.Select)
-				if !ok {
-					continue
-				}
-				for _, st := range sel.States {
-					if st.Dir != types.SendOnly {
-						continue
+				switch x := ins.(type) {
+				case *ssa.Select:
+					for _, st := range x.States {
+						if st.Dir == types.SendOnly {
+							n++
+							w.Require(rr, ins, "value handed to the caller only after hash-match or key-match ∧ Verify", verified)
+						}
 					}
-					n++
-					w.Require(rr, ins, "value handed to the caller only after hash-match or key-match ∧ Verify", verified)
+				case *ssa.Call:
+					for _, e := range w.CG.SiteOut[x] {
+						if !own[e.Callee] && w.P.IsLib(e.Callee) && e.Callee.Pkg == sgt.Pkg && hasSelectSend(e.Callee) {
+							n++
+							w.Require(rr, ins, "value handed to the caller only after hash-match or key-match ∧ Verify", verified)
+						}
+					}
 				}
 			}
 		}
